@@ -117,15 +117,18 @@ def scalar_runs(ctx, rng, idx):
     first = (idx // 4) % 3 == 0
     mname = "convection" if first else str(rng.choice(["convection", "burgers"]))
     rec = "extrapol1" if first else "muscl_" + gen.LIMITERS[(idx // 12) % 4]
-    n = int(rng.integers(3, 61))
+    n = int(rng.integers(3, 61)) if rng.random() < 0.9 else int(rng.integers(1, 3))       # also 1- and 2-cell periodic meshes
     s = gen.scenario1d(rng, mname=mname, bc="per", recons=[rec], meshkinds=gen.MESH_KINDS if first else ["uni"], ncell=n,
                        dkind=str(rng.choice(["random", "step", "sawtooth", "square", "spike", "signchange", "antisym"])))
     if mname == "burgers" and rng.random() < 0.3:
         # stationary-shock pattern: exactly mirror-symmetric states u, -u next to each other
         q = s.field.data[0]
-        k = int(rng.integers(0, n - 1))
-        a = abs(q[k]) + 0.3
-        q[k], q[k + 1] = a, -a
+        k = int(rng.integers(0, max(1, n - 1))) if n > 1 else 0
+        if n == 1:
+            k = None
+        if k is not None:
+            a = abs(q[k]) + 0.3
+            q[k], q[k + 1] = a, -a
     lim = 1.0 if first else 0.5
     cfl = lim if rng.random() < 0.25 else float(rng.uniform(0.02, lim))
     nstep = int(rng.integers(1, 31))
